@@ -2817,6 +2817,8 @@ class PlateSlicer(Slicer):
             return frm_array[0], to.plate
         if not isinstance(frm, (Plate, PlateSlicer)):
             raise TypeError("Invalid source type.")
+        if isinstance(frm, Plate):
+            frm = frm[:]
 
         to = copy(to)
         frm = copy(frm)
